@@ -556,11 +556,11 @@ class SimKernel:
         p.exit_time = self.mono
         p.fds = {}
         p.threads = {pid: p.threads.get(pid, [p.comm, 0, 0])}
-        self.bump()
         # orphans are re-parented to init
         for q in self.procs.values():
             if q.ppid == pid and q.pid != pid:
                 q.ppid = 1
+        self.bump()
         if reap is None:
             reap = not p.is_child
         if reap:
